@@ -550,7 +550,7 @@ func (db *Database) performFuzzySearch(query string, options SearchOptions) []Se
 		builder.WriteString(cmd.Command)
 		builder.WriteByte(' ')
 		builder.WriteString(cmd.Description)
-		targets = append(targets, builder.String())
+		targets = append(targets, fuzzyText(builder.String()))
 		targetDoc = append(targetDoc, i)
 	}
 
@@ -587,6 +587,16 @@ func (db *Database) performFuzzySearch(query string, options SearchOptions) []Se
 	}
 
 	return results
+}
+
+// fuzzyText makes a text safe to hand to the fuzzy matcher: the library takes a NUL
+// character for the end of the string and then indexes past the end of the pattern
+// (index out of range), so NULs are replaced by spaces.
+func fuzzyText(s string) string {
+	if strings.IndexByte(s, 0) < 0 {
+		return s
+	}
+	return strings.ReplaceAll(s, "\x00", " ")
 }
 
 // combineAndDeduplicateResults merges exact and fuzzy results, removing duplicates
@@ -658,7 +668,7 @@ func (db *Database) GetSuggestions(query string, maxSuggestions int) []string {
 	// Convert to slice for fuzzy matching
 	words := make([]string, 0, len(wordSet))
 	for word := range wordSet {
-		words = append(words, word)
+		words = append(words, fuzzyText(word))
 	}
 	// fixed candidate order: the matcher keeps equally good matches in input order
 	sort.Strings(words)
